@@ -472,12 +472,14 @@ func runPart2(c Case) vt.Verdict {
 			continue
 		}
 		bs := gen.CheckDriverLog(it.plan, r.log)
-		// clauses that depend on a (generous) wall-clock bound are confirmed by
-		// a second run of the same driver before they count: wall-clock time
-		// is never a correctness signal on a single observation
+		// clauses that depend on a (generous) wall-clock bound or on the
+		// transport (a call that failed with node errors) are confirmed by a
+		// second run of the same driver before they count: wall-clock time and
+		// transient connection trouble are never a correctness signal on a
+		// single observation
 		timeBound := false
 		for _, b := range bs {
-			if strings.HasSuffix(b.Key, "/timeout") || strings.HasSuffix(b.Key, "/handler-not-run") || strings.HasSuffix(b.Key, "/not-called") {
+			if strings.HasSuffix(b.Key, "/timeout") || strings.HasSuffix(b.Key, "/handler-not-run") || strings.HasSuffix(b.Key, "/not-called") || strings.HasSuffix(b.Key, "/call-error") {
 				timeBound = true
 			}
 		}
